@@ -348,6 +348,19 @@ def _run_mixture(case, ctx):
         ctx.violation("reverse_iast/adsorbed-fractions", "returned loadings do not have the requested adsorbed mole fractions", got=nr / nr.sum(), expected=x)
     if not numpy.allclose(yr, y, rtol=1e-5, atol=1e-8):
         ctx.violation("reverse_iast/not-inverse-of-forward", "reverse IAST does not give back the gas phase of the forward calculation", got=yr, expected=y, **info)
+    # a warm start (the answer of a neighbouring state point, or an earlier answer typed in with four digits) is a starting guess,
+    # nothing more: the result is the solution
+    g = numpy.round(numpy.asarray(y, dtype=float), 4)
+    if g.min() > 0:
+        g = g / g.sum()
+        rw = _call(pgiast.reverse_iast, isos, list(x), P, warningoff=True, gas_mole_fraction_guess=list(g))
+        ctx.case(["reverse-warm-start", dg])
+        if rw[0] == "ok":
+            ctx.count("returned", "reverse_iast/warm-start")
+            yw = numpy.asarray(rw[1][0], dtype=float)
+            if not numpy.allclose(yw, yr, rtol=1e-6, atol=1e-9):
+                ctx.violation("reverse_iast/result-depends-on-starting-guess", "reverse IAST started from a rounded copy of the answer returns something else than from the default guess", warm=yw, default=yr,
+                              guess=g, **info)
     if r.random() < 0.03:
         ctx.sample({"components": comps, "partial_pressures": pp, "loadings": n})
 
